@@ -7,7 +7,15 @@ import (
 	"verif/vp"
 )
 
-type sink struct{ b []byte }
+type sink struct {
+	b        []byte
+	reserved int
+	commits  int
+}
+
+// Reserve and Commit make the sink a Reserver/Committer, as the emulator's trace consumers are.
+func (s *sink) Reserve(n int) { s.reserved += n }
+func (s *sink) Commit()       { s.commits++ }
 
 func (s *sink) Write(p []byte) (int, error) {
 	s.b = append(s.b, p...)
@@ -344,5 +352,42 @@ func LoggerOnOff(prog int, k int, maxBudget int) {
 	vp.Assert("same-result", r1 == r2)
 	vp.Assert("same-final-registers-flags-and-cycle-totals", cpuenv.FromMain(&s1.CPU) == cpuenv.FromMain(&s2.CPU))
 	vp.Assert("same-final-memory", vp.BytesEqual(cpuenv.MainMem, cpuenv.SpecMem))
+	vp.Reach("end")
+}
+
+// LoggerLongRun: a spin loop traced through a reserving logger for a symbolic budget of up to
+// maxBudget cycles (several hundred), compared with the untraced run. Control flow is concrete (the
+// program is BRA -2); only the budget test forks.
+func LoggerLongRun(maxBudget int) {
+	s1, s2 := cpuenv.Sys, cpuenv.Sys2
+	pre := cpuenv.ArbitraryPre(1, 1, 0)
+	pre.Interrupt &= 1
+	pre.Cycles = 3
+	pre.RK, pre.RDBR = 0x80, 0x7E
+	pre.ToMain(&s1.CPU)
+	pre.ToMain(&s2.CPU)
+	vp.FillBytes("mem", cpuenv.MainMem)
+	vp.FillBytes("mem", cpuenv.SpecMem)
+	a := uint32(0x800000) | uint32(pre.PC)
+	a1 := uint32(0x800000) | uint32(pre.PC+1)
+	cpuenv.MainMem[a], cpuenv.SpecMem[a] = 0x80, 0x80
+	cpuenv.MainMem[a1], cpuenv.SpecMem[a1] = 0xFE, 0xFE
+	budget := vp.U64("budget")
+	vp.Assume(budget <= uint64(maxBudget))
+	target := uint32(0x800000) | uint32(pre.PC+2) // never reached
+	log := &sink{}
+	s1.Logger, s2.Logger = nil, log
+	var r1, r2 bool
+	f1 := vp.Try(func() { r1 = s1.RunUntil(target, budget) })
+	f2 := vp.Try(func() { r2 = s2.RunUntil(target, budget) })
+	s2.Logger = nil
+	vp.Assert("same-completion", f1 == f2)
+	if f1 || f2 {
+		return
+	}
+	vp.Assert("same-result", r1 == r2)
+	vp.Assert("same-final-registers-flags-and-cycle-totals", cpuenv.FromMain(&s1.CPU) == cpuenv.FromMain(&s2.CPU))
+	vp.Assert("same-final-memory", vp.BytesEqual(cpuenv.MainMem, cpuenv.SpecMem))
+	vp.Assert("logger-committed-once", log.commits == 1)
 	vp.Reach("end")
 }
